@@ -19,6 +19,12 @@ def _dispatch(prop: str, tier: str):
         from . import conccheck
         conccheck.check_into(rep, tier)
         return rep
+    if prop == "C09":
+        from . import conccheck, policycheck
+        rep = policycheck.check("C09", tier)
+        # ... and for concurrently running calls: each call's record follows its own outcome
+        conccheck.check_into(rep, tier, prop="C09")
+        return rep
     if prop == "C10":
         from . import budget, retrycheck
         comp = budget.check(tier)
